@@ -70,6 +70,19 @@ type replayFile struct {
 	Str  *strCase `json:"str,omitempty"`
 	Re   *reCase  `json:"re,omitempty"`
 	Gen  *genCase `json:"gen,omitempty"`
+	Seq  *seqCase `json:"seq,omitempty"`
+}
+
+func listItems(v any) ([]any, bool) {
+	l, ok := v.(vals.List)
+	if !ok {
+		return nil, false
+	}
+	var out []any
+	for it := l.Iterator(); it.HasElem(); it.Next() {
+		out = append(out, it.Elem())
+	}
+	return out, true
 }
 
 const (
@@ -550,6 +563,13 @@ func replay(c *lib.Ctx) error {
 			return nil
 		}
 		return judgeStr(c, dir, []strCase{k})
+	case "reseq":
+		k, err := recordSeq(pool, *f.Case.Seq)
+		if err != nil {
+			c.Reject(seqKey(k, "run"), err.Error(), f.Case)
+			return nil
+		}
+		return judgeSeq(c, dir, []seqCase{k}, 1)
 	case "re":
 		k := recordRe(pool, *f.Case.Re)
 		bad, err := lib.Judge(c, "JudgeRe", dir, "JudgeRe", []reCase{k}, 1, 5*time.Minute)
